@@ -394,6 +394,32 @@ def _unguarded_panics(b):
     return n
 
 
+_NF_LOCAL = {}
+
+
+def _index_in_range(b, msg):
+    """BoundsCheck { len: L, index: _k }: is _k an element of the range `0..L` (the counter of a `for` loop over exactly the checked
+    length)?"""
+    m = re.search(r"len: (?:const |copy |move )?([\w:<>]+), index: (?:copy|move) _(\d+)", msg)
+    if not m or _FACTS_FOR_NF[0] is None:
+        return False
+    import nf
+    facts = _FACTS_FOR_NF[0]
+    k = id(facts)
+    if k not in _NF_LOCAL:
+        _NF_LOCAL.clear()
+        _NF_LOCAL[k] = nf.Normalizer(facts)
+    try:
+        alts = _NF_LOCAL[k].alts(nf.NProv(b, facts).of_local(int(m.group(2))))
+    except Exception:
+        return False
+    L = m.group(1)
+    return bool(alts) and all(re.match(r"^elem\(Range\{start: const 0_usize, end: (const )?%s\}\)$" % re.escape(L), a) for a in alts)
+
+
+_FACTS_FOR_NF = [None]
+
+
 def panic_sites(b):
     """Operations of body `b` that can panic by themselves: calls into core::panicking, Option/Result unwrap / expect (and the
     unchecked forms, UB instead of a panic), RefCell borrows, Index / IndexMut with something other than `..`, a few slice / Vec
@@ -404,6 +430,8 @@ def panic_sites(b):
         t = bl["term"]
         if t["k"] == "assert":
             m = str(t.get("msg", ""))
+            if m.startswith("BoundsCheck") and _index_in_range(b, m):
+                continue                # `for i in 0..LEN { a[i] }` with LEN the checked length: cannot fail
             if m.startswith(("BoundsCheck", "DivisionByZero", "RemainderByZero")):
                 out.append(m.split("(")[0].split(" ")[0])
             continue
@@ -440,6 +468,7 @@ def rule_panic_inv(facts):
     that a particular grammar makes `None`."""
     import panic_table as PT
     import collections
+    _FACTS_FOR_NF[0] = facts
     r = RuleResult("PANIC-INV")
     n = 0
     comp = {}
